@@ -1439,6 +1439,23 @@ func errorWayEdge(p *an.Prog, ph *ssa.Phi, i int) bool {
 // passes an append to a slice whose element type's name ends in elem, or leaves the function with an error.
 // Returns (found the loop, holds, witness).
 func everyIterationAppends(p *an.Prog, f *ssa.Function, over, elem string) (bool, bool, []string) {
+	return everyIterationPasses(p, f, over, func(in ssa.Instruction) bool {
+		cc := an.CallOf(in)
+		if cc == nil {
+			return false
+		}
+		b, ok := cc.Value.(*ssa.Builtin)
+		if !ok || b.Name() != "append" || len(cc.Args) == 0 {
+			return false
+		}
+		sl, ok := cc.Args[0].Type().Underlying().(*types.Slice)
+		return ok && strings.HasSuffix(sl.Elem().String(), elem)
+	})
+}
+
+// everyIterationPasses: in f, every iteration of the loop that ranges over a value whose description contains over passes
+// an instruction for which cut is true, or leaves the function with an error. Returns (found the loop, holds, witness).
+func everyIterationPasses(p *an.Prog, f *ssa.Function, over string, cut func(ssa.Instruction) bool) (bool, bool, []string) {
 	var hdr *ssa.BasicBlock
 	an.Instrs(f, func(in ssa.Instruction) {
 		ia, ok := in.(*ssa.IndexAddr)
@@ -1476,18 +1493,7 @@ func everyIterationAppends(p *an.Prog, f *ssa.Function, over, elem string) (bool
 		return true, false, nil
 	}
 	s := &an.Search{P: p, Fn: f,
-		Cut: func(in ssa.Instruction) bool {
-			cc := an.CallOf(in)
-			if cc == nil {
-				return false
-			}
-			b, ok := cc.Value.(*ssa.Builtin)
-			if !ok || b.Name() != "append" || len(cc.Args) == 0 {
-				return false
-			}
-			sl, ok := cc.Args[0].Type().Underlying().(*types.Slice)
-			return ok && strings.HasSuffix(sl.Elem().String(), elem)
-		},
+		Cut: cut,
 		GoalBlock: func(b, pred *ssa.BasicBlock) bool {
 			if b == hdr {
 				return true // next iteration without having appended
@@ -1917,5 +1923,692 @@ func ruleRollbackHeightFollowsTheWalk(c *report.Ctx) {
 	}
 	if n == 0 {
 		c.OK("rollback-height-follows-the-walk:sites", "no function both walks the synced chain back and rolls back after a walk read: nothing to compare", "")
+	}
+}
+
+// ruleBucketPathCutOnlyAtSeparators (C11): the depth in front of a bucket path has no fixed width.
+func ruleBucketPathCutOnlyAtSeparators(c *report.Ctx) {
+	p := c.P
+	c.Rule("bucket-path-cut-only-at-separators", "a bucket path (levelBucket.path: strconv.Itoa(depth) + \"_\" + names…) is taken apart only at its separators (strings.Split) or at offsets computed from lengths of its own parts — never sliced at a constant offset: the depth in front is one byte wide only up to depth 9, so a child path, listing prefix or index key derived by cutting a constant number of bytes off a parent path names a different bucket from depth 10 on (children no longer listed, a deleted subtree's rows found again by a re-created bucket)", 4)
+	lb := p.Type(pkgLDB, "levelBucket")
+	if lb == nil {
+		c.Lost("ldb.levelBucket")
+		return
+	}
+	for _, f := range p.ModFuncs {
+		if pk := an.FuncPkg(f); pk == nil || pk.Path() != pkgLDB || f.Blocks == nil {
+			continue
+		}
+		k := 0
+		for _, rd := range fieldReads(f, lb, "path") {
+			fa := rd.(*ssa.FieldAddr)
+			// the loaded strings and what they are converted to / merged into
+			var vals []ssa.Value
+			seen := map[ssa.Value]bool{}
+			var fwd func(v ssa.Value)
+			fwd = func(v ssa.Value) {
+				if seen[v] {
+					return
+				}
+				seen[v] = true
+				vals = append(vals, v)
+				if v.Referrers() == nil {
+					return
+				}
+				for _, r := range *v.Referrers() {
+					switch x := r.(type) {
+					case *ssa.Convert:
+						fwd(x)
+					case *ssa.ChangeType:
+						fwd(x)
+					case *ssa.Phi:
+						fwd(x)
+					}
+				}
+			}
+			for _, r := range *fa.Referrers() {
+				if ld, ok := r.(*ssa.UnOp); ok && ld.Op == token.MUL {
+					fwd(ld)
+				}
+			}
+			if len(vals) == 0 {
+				continue
+			}
+			k++
+			key := siteKey(f, "path-read", k)
+			var bad ssa.Instruction
+			for _, v := range vals {
+				for _, r := range *v.Referrers() {
+					sl, ok := r.(*ssa.Slice)
+					if !ok || sl.X != v {
+						continue
+					}
+					for _, b := range []ssa.Value{sl.Low, sl.High} {
+						if b == nil {
+							continue
+						}
+						if n, isK := constInt(b); isK && n > 0 {
+							bad = sl
+						}
+					}
+				}
+			}
+			if bad != nil {
+				c.Fail(key, "a bucket path is cut at a constant offset ("+p.Desc(bad.(ssa.Value))+"): that assumes a depth prefix of fixed width, which holds only down to depth 9 — below that the derived path or key belongs to another bucket", posOf(c, bad))
+			} else {
+				c.OK(key, "not sliced at a constant offset", posOf(c, rd))
+			}
+		}
+	}
+}
+
+// ruleLoopCellAddressNotRetained (C08, C09): the address of a variable that a loop re-assigns is not kept beyond the iteration.
+func ruleLoopCellAddressNotRetained(c *report.Ctx) {
+	p := c.P
+	c.Rule("loop-cell-address-not-retained", "the module is built with the pre-1.22 loop semantics (go.mod: go 1.13 — go/ssa allocates a range or loop variable once, before the loop): a variable allocated outside a loop and assigned in it never has its address appended to a slice, stored into a field, element or map, or sent, inside that loop — every pointer kept that way ends up naming the last value (RemoveRelevantTx reports the hashes of the pending transactions it dropped this way; asyncRemove forgets exactly the reported hashes in the follower's seen-set, so with an aliased list all but one stay 'already processed' for a re-imported wallet)", 1)
+	n := 0
+	for _, f := range p.ModFuncs {
+		pk := an.FuncPkg(f)
+		if pk == nil || f.Blocks == nil || !(strings.HasPrefix(pk.Path(), pkgWallet) || pk.Path() == pkgAPI) {
+			continue
+		}
+		k := 0
+		an.Instrs(f, func(in ssa.Instruction) {
+			a, ok := in.(*ssa.Alloc)
+			if !ok || a.Referrers() == nil {
+				return
+			}
+			// loops that assign the cell and do not contain its allocation
+			var hdrs []*ssa.BasicBlock
+			for _, r := range *a.Referrers() {
+				st, ok := r.(*ssa.Store)
+				if !ok || st.Addr != ssa.Value(a) {
+					continue
+				}
+				for h := loopHeaderOf(st.Block()); h != nil; {
+					if !loopContainsBlock(h, a.Block()) && h != a.Block() {
+						dup := false
+						for _, x := range hdrs {
+							dup = dup || x == h
+						}
+						if !dup {
+							hdrs = append(hdrs, h)
+						}
+					}
+					// the enclosing loop, if any
+					next := (*ssa.BasicBlock)(nil)
+					if id := h.Idom(); id != nil {
+						next = loopHeaderOf(id)
+					}
+					if next == h {
+						break
+					}
+					h = next
+				}
+			}
+			if len(hdrs) == 0 {
+				return
+			}
+			inLoop := func(b *ssa.BasicBlock) bool {
+				for _, h := range hdrs {
+					if b == h || loopContainsBlock(h, b) {
+						return true
+					}
+				}
+				return false
+			}
+			// is the address taken at all (used as a value, not only as the target of loads and stores)?
+			var kept ssa.Instruction
+			taken := false
+			for _, r := range *a.Referrers() {
+				switch x := r.(type) {
+				case *ssa.Store:
+					if x.Val == ssa.Value(a) {
+						taken = true
+						if inLoop(x.Block()) {
+							kept = x
+						}
+					}
+				case *ssa.MapUpdate:
+					if x.Value == ssa.Value(a) || x.Key == ssa.Value(a) {
+						taken = true
+						if inLoop(x.Block()) {
+							kept = x
+						}
+					}
+				case *ssa.Send:
+					if x.X == ssa.Value(a) {
+						taken = true
+						if inLoop(x.Block()) {
+							kept = x
+						}
+					}
+				case *ssa.Call, *ssa.MakeInterface, *ssa.Phi, *ssa.Return, *ssa.MakeClosure, *ssa.Go, *ssa.Defer:
+					taken = true
+				}
+			}
+			if !taken {
+				return
+			}
+			n++
+			k++
+			key := siteKey(f, "loop-cell:"+a.Comment, k)
+			if kept != nil {
+				c.Fail(key, "the address of `"+a.Comment+"`, which this loop re-assigns on every iteration, is kept inside the loop (stored / appended / sent): with the loop semantics this module is built with, every pointer kept names the same variable — after the loop they all show the last value", posOf(c, kept))
+			} else {
+				c.OK(key, "address used within the iteration only", posOf(c, a))
+			}
+		})
+	}
+	_ = n
+}
+
+// ruleBusyGateBeforeAcceptedTask (C20, C07, C08): every entry point that accepts work for the background worker refuses it
+// while the queue is busy.
+func ruleBusyGateBeforeAcceptedTask(c *report.Ctx) {
+	p := c.P
+	c.Rule("busy-gate-before-accepted-task", "WalletTaskChan.PushImport/PushRemove drop a task silently when the channel is full, and the worker needs a free slot to re-queue an unfinished round; that is safe only because every WalletManager method from which a push is reachable (ImportWallet, ImportWalletWithMnemonic, RemoveWallet) hands the task over under IsWorkerBusy() == false: an entry point without the gate answers success for a wallet whose import/removal task is dropped (it stays importing/removing until restart) or takes the slot of a round in flight", 3)
+	wm := p.Type(pkgWallet, "WalletManager")
+	busy := fn(c, pkgWallet, "NtfnsHandler", "IsWorkerBusy")
+	if wm == nil || busy == nil {
+		return
+	}
+	// functions of the handler that queue a task
+	var pushers []*ssa.Function
+	for _, f := range p.ModFuncs {
+		if pk := an.FuncPkg(f); pk == nil || pk.Path() != pkgWallet || f.Blocks == nil {
+			continue
+		}
+		if len(taskPushes(c, f)) > 0 {
+			pushers = append(pushers, f)
+		}
+	}
+	isPusher := map[*ssa.Function]bool{}
+	for _, f := range pushers {
+		isPusher[f] = true
+	}
+	notBusy := func(a an.Atom) bool {
+		if a.Op != token.ILLEGAL || a.Truth {
+			return false
+		}
+		call, ok := a.X.(*ssa.Call)
+		if !ok {
+			return false
+		}
+		for _, g := range p.Callees(call) {
+			if g == busy {
+				return true
+			}
+		}
+		// the queue asked directly
+		if g := call.Call.StaticCallee(); g != nil && g.Name() == "IsBusy" {
+			return true
+		}
+		return false
+	}
+	n := 0
+	for _, f := range p.ModFuncs {
+		if f.Blocks == nil || f.Signature.Recv() == nil || f.Parent() != nil {
+			continue
+		}
+		if nm := an.NamedOf(f.Signature.Recv().Type()); nm == nil || nm.Obj() != wm.Obj() {
+			continue
+		}
+		k := 0
+		for _, g := range withLiterals(f) {
+			an.Instrs(g, func(in ssa.Instruction) {
+				cc := an.CallOf(in)
+				if cc == nil {
+					return
+				}
+				hit := false
+				for _, cal := range p.Callees(in) {
+					if isPusher[cal] {
+						hit = true
+					}
+				}
+				if !hit {
+					return
+				}
+				n++
+				k++
+				key := siteKey(f, "task-handed-over", k)
+				gs := p.GuardsOf(in)
+				if g != f {
+					// inside a literal: what held where the literal was handed on counts as well
+					an.Instrs(f, func(x ssa.Instruction) {
+						if xc := an.CallOf(x); xc != nil {
+							for _, a := range xc.Args {
+								if mc, ok := a.(*ssa.MakeClosure); ok && mc.Fn == ssa.Value(g) {
+									gs = append(gs, p.GuardsOf(x)...)
+								}
+							}
+						}
+					})
+				}
+				if an.AnyAtom(gs, notBusy) {
+					c.OK(key, "under IsWorkerBusy() == false", posOf(c, in))
+				} else {
+					c.Fail(key, "a task is handed to the background worker without asking whether its queue is busy: when it is, the push is dropped silently (or takes the slot the worker needs to re-queue the round in flight) and the caller is told the import/removal was accepted", posOf(c, in))
+				}
+			})
+		}
+	}
+	_ = n
+}
+
+// rulePendingMarkForEveryRelevantInput (C02, C09): a recorded pending transaction marks every one of its wallet inputs.
+func rulePendingMarkForEveryRelevantInput(c *report.Ctx) {
+	p := c.P
+	c.Rule("pending-mark-for-every-relevant-input", "UtxoStore.insertUnminedInputs writes the spent-by-pending marker (putRawUnminedInput) in every iteration over the record's relevant inputs, or fails: the marker is keyed by outpoint, not by credit, precisely so that it can be written before the coin exists as a mined credit (the input spends the output of a transaction that is itself still pending) — an iteration that goes on without it leaves that coin selectable again once its parent is mined, while the child that spends it is still pending", 1)
+	f := fn(c, pkgTxmgr, "UtxoStore", "insertUnminedInputs")
+	put := fn(c, pkgTxmgr, "", "putRawUnminedInput")
+	if f == nil || put == nil {
+		return
+	}
+	found, ok, w := everyIterationPasses(p, f, "RelevantTxIn", func(in ssa.Instruction) bool {
+		cc := an.CallOf(in)
+		return cc != nil && cc.StaticCallee() == put
+	})
+	key := sk(f) + ":marker-per-input"
+	switch {
+	case !found:
+		c.Fail(key, "insertUnminedInputs no longer ranges over the record's relevant inputs (anchor lost)", p.Pos(f.Pos()))
+	case ok:
+		c.OK(key, "every iteration writes the marker or fails", p.Pos(f.Pos()))
+	default:
+		c.Fail(key, "an iteration over the relevant inputs can go on without writing the spent-by-pending marker: the coin that input spends is offered to the next transaction although a pending one already spends it", p.Pos(f.Pos()), w...)
+	}
+}
+
+// ruleOpeningDeletesNothing (C06): opening the wallet database creates what is missing and removes nothing.
+func ruleOpeningDeletesNothing(c *report.Ctx) {
+	p := c.P
+	c.Rule("opening-deletes-nothing", "nothing reachable from the constructors that run when the wallet database is opened (NewWalletManager and the stores and keystore manager it builds) deletes a row or a bucket (Bucket.Delete / DeleteBucket / Clear): what a run committed before it stopped — pending transactions and their history rows included — is what the next run starts from; state is only ever unwound by the operations that own it (rollback, removal, confirmation), which keep the sibling buckets in step", 4)
+	roots := []*ssa.Function{
+		fn(c, pkgWallet, "", "NewWalletManager"),
+		fn(c, pkgTxmgr, "", "NewTxStore"),
+		fn(c, pkgTxmgr, "", "NewUtxoStore"),
+		fn(c, pkgTxmgr, "", "NewSyncStore"),
+	}
+	for _, r := range roots {
+		if r == nil {
+			continue
+		}
+		reached, parent := p.ReachNil([]*ssa.Function{r}, an.ReachOpts{SkipEdge: func(from *ssa.Function, e an.Edge) bool { return e.Kind == "go" || e.Kind == "ref" }})
+		var fs []*ssa.Function
+		for f := range reached {
+			if p.InModule(f) && f.Blocks != nil {
+				if pk := an.FuncPkg(f); pk != nil && pk.Path() != pkgLDB && !strings.HasSuffix(pk.Path(), "/db") {
+					fs = append(fs, f)
+				}
+			}
+		}
+		sortFuncs(fs)
+		var bad ssa.Instruction
+		var badF *ssa.Function
+		for _, f := range fs {
+			an.Instrs(f, func(in ssa.Instruction) {
+				cc := an.CallOf(in)
+				if cc == nil || !cc.IsInvoke() || bad != nil {
+					return
+				}
+				switch cc.Method.Name() {
+				case "Delete", "DeleteBucket", "Clear":
+					if n := an.NamedOf(cc.Value.Type()); n != nil && n.Obj().Pkg() != nil && strings.HasSuffix(n.Obj().Pkg().Path(), "masswallet/db") {
+						bad, badF = in, f
+					}
+				}
+			})
+		}
+		key := sk(r) + ":deletes-nothing"
+		if bad != nil {
+			c.Fail(key, "a constructor that runs every time the wallet database is opened reaches a delete: rows a previous run committed are gone after a restart, while the sibling buckets that describe the same state (unmined credits and inputs beside unmined records) keep theirs — the restarted wallet neither knows the pending transaction nor can record it again", posOf(c, bad), p.Witness(parent, badF)...)
+		} else {
+			c.OK(key, "no Bucket.Delete / DeleteBucket / Clear reachable ("+itoa(len(fs))+" functions examined)", p.Pos(r.Pos()))
+		}
+	}
+}
+
+// ruleGapLimitOneValue (C12, C07): issuing and restoring look back over the same window.
+func ruleGapLimitOneValue(c *report.Ctx) {
+	p := c.P
+	c.Rule("gap-limit-one-value", "every gap limit the wallet and the API hand to the keystore (an argument bound to a parameter named …GapLimit, or the AddressGapLimit field of the parameters record) is the configured Settings.AddressGapLimit itself, not a value computed from it: the restore scan stops that many unused addresses after the last used one, so an address issued under a wider window (a class-specific allowance added on top) lies beyond what a restore from the mnemonic ever looks at", 3)
+	isCfgLoad := func(v ssa.Value) bool {
+		ld, ok := v.(*ssa.UnOp)
+		if !ok || ld.Op != token.MUL {
+			return false
+		}
+		fa, ok := ld.X.(*ssa.FieldAddr)
+		if !ok {
+			return false
+		}
+		st, ok := fa.X.Type().Underlying().(*types.Pointer)
+		if !ok {
+			return false
+		}
+		s, ok := st.Elem().Underlying().(*types.Struct)
+		return ok && s.Field(fa.Field).Name() == "AddressGapLimit"
+	}
+	tr := &an.Tracer{P: p, Leaf: isCfgLoad}
+	judge := func(f *ssa.Function, key string, v ssa.Value, at ssa.Instruction) {
+		bad := ""
+		for _, o := range tr.Origins(v) {
+			if isCfgLoad(o.V) {
+				continue
+			}
+			if _, isPar := o.V.(*ssa.Parameter); isPar && o.Entry {
+				continue // handed in by a caller outside the module (tests, tools)
+			}
+			bad = p.Desc(o.V)
+		}
+		if bad == "" {
+			c.OK(key, "the configured AddressGapLimit", posOf(c, at))
+		} else {
+			c.Fail(key, "the look-back window handed to the keystore is not the configured gap limit ("+bad+"): addresses issued under it can lie beyond the window a restore scans, and a payment to one of them is never rediscovered from the mnemonic", posOf(c, at))
+		}
+	}
+	for _, f := range p.ModFuncs {
+		pk := an.FuncPkg(f)
+		if pk == nil || f.Blocks == nil || (pk.Path() != pkgWallet && pk.Path() != pkgAPI) {
+			continue
+		}
+		k := 0
+		an.Instrs(f, func(in ssa.Instruction) {
+			if cc := an.CallOf(in); cc != nil {
+				cal := cc.StaticCallee()
+				if cal == nil || an.FuncPkg(cal) == nil || an.FuncPkg(cal).Path() != pkgKeystore {
+					return
+				}
+				off := 0
+				if cal.Signature.Recv() != nil {
+					off = 1
+				}
+				for i := 0; i < cal.Signature.Params().Len(); i++ {
+					if !strings.HasSuffix(strings.ToLower(cal.Signature.Params().At(i).Name()), "gaplimit") || i+off >= len(cc.Args) {
+						continue
+					}
+					k++
+					judge(f, siteKey(f, "gap->"+nm(cal), k), cc.Args[i+off], in)
+				}
+				return
+			}
+			// the field of the parameters record
+			st, ok := in.(*ssa.Store)
+			if !ok {
+				return
+			}
+			fa, ok := st.Addr.(*ssa.FieldAddr)
+			if !ok {
+				return
+			}
+			n := an.NamedOf(fa.X.Type())
+			if n == nil || n.Obj().Pkg() == nil || n.Obj().Pkg().Path() != pkgKeystore {
+				return
+			}
+			if s, ok := n.Underlying().(*types.Struct); ok && s.Field(fa.Field).Name() == "AddressGapLimit" {
+				k++
+				judge(f, siteKey(f, "gap->"+n.Obj().Name()+".AddressGapLimit", k), st.Val, in)
+			}
+		})
+	}
+}
+
+// ruleNoFloatBetweenUserAndConverter (C15): nothing in front of or behind the exact converters speaks float.
+func ruleNoFloatBetweenUserAndConverter(c *report.Ctx) {
+	p := c.P
+	c.Rule("no-float-between-user-and-converter", "the CLI, the API and the wallet never turn a number into a string or a string into a number through float64 (strconv.FormatFloat / ParseFloat, big.Float, a JSON document decoded into interface{} and walked for its float64 numbers): an amount numeral reaches api.StringToAmount as the user wrote it — a float64 round trip re-writes what the parser would have refused (1e3 → \"1000\") and loses the low digits of anything above 2^53 maxwell", 1)
+	n := 0
+	for _, f := range p.ModFuncs {
+		pk := an.FuncPkg(f)
+		if pk == nil || f.Blocks == nil {
+			continue
+		}
+		path := pk.Path()
+		if !(path == pkgAPI || path == pkgWallet || strings.Contains(path, "/cmd/masswalletcli")) {
+			continue
+		}
+		n++
+		k := 0
+		an.Instrs(f, func(in ssa.Instruction) {
+			what := ""
+			if cc := an.CallOf(in); cc != nil {
+				if g := cc.StaticCallee(); g != nil {
+					switch key := an.CanonKeyOf(g); {
+					case key == "strconv.FormatFloat" || key == "strconv.ParseFloat" || key == "strconv.AppendFloat":
+						what = key
+					case strings.HasPrefix(key, "(*math/big.Float).") || key == "math/big.NewFloat" || key == "math/big.ParseFloat":
+						what = key
+					}
+				}
+			}
+			// a float64 taken out of an interface value (a number of a generically decoded JSON document)
+			if ta, ok := in.(*ssa.TypeAssert); ok {
+				if b, isB := ta.AssertedType.Underlying().(*types.Basic); isB && b.Info()&types.IsFloat != 0 {
+					if _, isIface := ta.X.Type().Underlying().(*types.Interface); isIface {
+						what = "interface value asserted to " + b.Name()
+					}
+				}
+			}
+			if what == "" {
+				return
+			}
+			k++
+			c.Fail(siteKey(f, "float", k), "a number crosses float64 on its way between the user and the exact converters ("+what+"): the numeral the node parses is no longer the one that was typed", posOf(c, in))
+		})
+	}
+	if n > 0 {
+		c.OK("no-float-between-user-and-converter:scanned", itoa(n)+" functions of the CLI, the API and the wallet: no float formatting or parsing, no float64 taken out of an interface", "")
+	}
+}
+
+// sameNamedPlace: a and b read the same place — the same value, loads of the same field of the same base, or calls of
+// the same argument-less getter on the same receiver.
+func sameNamedPlace(a, b ssa.Value, depth int) bool {
+	if a == b {
+		return true
+	}
+	if depth > 4 {
+		return false
+	}
+	switch x := a.(type) {
+	case *ssa.UnOp:
+		y, ok := b.(*ssa.UnOp)
+		if !ok || x.Op != token.MUL || y.Op != token.MUL {
+			return false
+		}
+		fx, ok1 := x.X.(*ssa.FieldAddr)
+		fy, ok2 := y.X.(*ssa.FieldAddr)
+		return ok1 && ok2 && fx.Field == fy.Field && sameNamedPlace(fx.X, fy.X, depth+1)
+	case *ssa.Call:
+		y, ok := b.(*ssa.Call)
+		if !ok || x.Call.IsInvoke() != y.Call.IsInvoke() {
+			return false
+		}
+		if x.Call.IsInvoke() {
+			return x.Call.Method == y.Call.Method && len(x.Call.Args) == 0 && len(y.Call.Args) == 0 && sameNamedPlace(x.Call.Value, y.Call.Value, depth+1)
+		}
+		return x.Call.StaticCallee() != nil && x.Call.StaticCallee() == y.Call.StaticCallee() && len(x.Call.Args) == 1 && len(y.Call.Args) == 1 && sameNamedPlace(x.Call.Args[0], y.Call.Args[0], depth+1)
+	case *ssa.Field:
+		y, ok := b.(*ssa.Field)
+		return ok && x.Field == y.Field && sameNamedPlace(x.X, y.X, depth+1)
+	}
+	return false
+}
+
+// ruleBalanceRowIsTheCoinsWallet (C01): the balance row that moves is the row of the wallet whose coin moves.
+func ruleBalanceRowIsTheCoinsWallet(c *report.Ctx) {
+	p := c.P
+	c.Rule("balance-row-is-the-coins-wallet", "where a function looks up, deletes or writes an unspent row under a wallet id (the wallet argument of existsUnspent / putUnspent) and moves a balance (a store of an Amount.Add/Sub result into the balance map), the key of the balance store names the same wallet as one of those arguments — the same field of the same relevant-input record, the same getter on the same address: one transaction can spend coins of two managed wallets, so a balance keyed by the first input's wallet debits one wallet for the other's coins (its stored total no longer equals the sum of its unspent outputs, or the block cannot be applied at all)", 4)
+	amtSub := p.Fn("github.com/massnetorg/mass-core/massutil", "Amount", "Sub")
+	amtAdd := p.Fn("github.com/massnetorg/mass-core/massutil", "Amount", "Add")
+	eu := fn(c, pkgTxmgr, "", "existsUnspent")
+	pu := fn(c, pkgTxmgr, "", "putUnspent")
+	if amtSub == nil || amtAdd == nil || eu == nil || pu == nil {
+		return
+	}
+	for _, f := range p.ModFuncs {
+		if pk := an.FuncPkg(f); pk == nil || pk.Path() != pkgTxmgr || f.Blocks == nil {
+			continue
+		}
+		var wallets []ssa.Value
+		for _, g := range []*ssa.Function{eu, pu} {
+			for _, s := range calls(f, g) {
+				if a := an.CallOf(s).Args; len(a) > 1 {
+					wallets = append(wallets, a[1])
+				}
+			}
+		}
+		if ck := fnOpt(c, pkgTxmgr, "", "canonicalUnspentKey"); ck != nil { // the key of a row written raw
+			for _, s := range calls(f, ck) {
+				if a := an.CallOf(s).Args; len(a) > 0 {
+					wallets = append(wallets, a[0])
+				}
+			}
+		}
+		if len(wallets) == 0 {
+			continue
+		}
+		k := 0
+		an.Instrs(f, func(in ssa.Instruction) {
+			mu, ok := in.(*ssa.MapUpdate)
+			if !ok {
+				return
+			}
+			ex, ok := mu.Value.(*ssa.Extract)
+			if !ok {
+				return
+			}
+			call, ok := ex.Tuple.(*ssa.Call)
+			if !ok || (call.Call.StaticCallee() != amtSub && call.Call.StaticCallee() != amtAdd) {
+				return
+			}
+			k++
+			key := siteKey(f, "balance-store", k)
+			for _, w := range wallets {
+				if sameNamedPlace(mu.Key, w, 0) {
+					c.OK(key, "keyed by the wallet the unspent row is kept under ("+p.Desc(mu.Key)+")", posOf(c, in))
+					return
+				}
+			}
+			c.Fail(key, "the balance that moves is keyed by "+p.Desc(mu.Key)+", which is not the wallet any unspent row of this function is looked up or written under: with inputs (or outputs) of two managed wallets in one transaction the wrong wallet's total changes", posOf(c, in))
+		})
+	}
+}
+
+// ruleKeystoreMemoryChangesLast (C18, C08): deleting a keystore changes the in-memory manager only when nothing can fail any more.
+func ruleKeystoreMemoryChangesLast(c *report.Ctx) {
+	p := c.P
+	c.Rule("keystore-memory-changes-last", "in KeystoreManager.DeleteKeystore no error return is reachable once the in-memory keystore has been touched (a store into a field of AddrManager / ManagedAddress / KeystoreManager, a delete from or an update of one of their maps — directly or inside a keystore function it calls): the database part is rolled back by the caller when a step fails, the memory part is not, and the repair that asyncRemove runs afterwards (updateManagedKeystore) reloads a wallet only when it is absent from the cache — a manager emptied before the failing step stays cached and empty, the retried removal finds no addresses, declares the records removed and leaves them behind", 2)
+	f := fn(c, pkgKeystore, "KeystoreManager", "DeleteKeystore")
+	if f == nil {
+		return
+	}
+	isMemType := func(t types.Type) bool {
+		n := an.NamedOf(t)
+		if n == nil || n.Obj().Pkg() == nil || n.Obj().Pkg().Path() != pkgKeystore {
+			return false
+		}
+		switch n.Obj().Name() {
+		case "AddrManager", "ManagedAddress", "KeystoreManager", "accountInfo", "branchInfo", "currentKeystore":
+			return true
+		}
+		return false
+	}
+	var rootsAtMem func(v ssa.Value, depth int) bool
+	rootsAtMem = func(v ssa.Value, depth int) bool {
+		if depth > 6 {
+			return false
+		}
+		switch x := v.(type) {
+		case *ssa.FieldAddr:
+			if isMemType(x.X.Type()) {
+				st := derefStructT(x.X.Type())
+				if st != nil && st.Field(x.Field).Name() == "mu" {
+					return false
+				}
+				return true
+			}
+			return rootsAtMem(x.X, depth+1)
+		case *ssa.UnOp:
+			return rootsAtMem(x.X, depth+1)
+		case *ssa.IndexAddr:
+			return rootsAtMem(x.X, depth+1)
+		}
+		return false
+	}
+	direct := func(in ssa.Instruction) bool {
+		switch x := in.(type) {
+		case *ssa.Store:
+			return rootsAtMem(x.Addr, 0)
+		case *ssa.MapUpdate:
+			return rootsAtMem(x.Map, 0)
+		}
+		if cc := an.CallOf(in); cc != nil {
+			if b, ok := cc.Value.(*ssa.Builtin); ok && b.Name() == "delete" && len(cc.Args) > 0 {
+				return rootsAtMem(cc.Args[0], 0)
+			}
+		}
+		return false
+	}
+	mut := map[*ssa.Function]bool{}
+	var ks []*ssa.Function
+	for _, g := range p.ModFuncs {
+		if pk := an.FuncPkg(g); pk != nil && pk.Path() == pkgKeystore && g.Blocks != nil {
+			ks = append(ks, g)
+			an.Instrs(g, func(in ssa.Instruction) {
+				if direct(in) {
+					mut[g] = true
+				}
+			})
+		}
+	}
+	for changed := true; changed; {
+		changed = false
+		for _, g := range ks {
+			if mut[g] {
+				continue
+			}
+			an.Instrs(g, func(in ssa.Instruction) {
+				if cc := an.CallOf(in); cc != nil && cc.StaticCallee() != nil && mut[cc.StaticCallee()] && !mut[g] {
+					mut[g] = true
+					changed = true
+				}
+			})
+		}
+	}
+	k := 0
+	an.Instrs(f, func(in ssa.Instruction) {
+		what := ""
+		if direct(in) {
+			what = "in-memory store"
+		} else if cc := an.CallOf(in); cc != nil && cc.StaticCallee() != nil && mut[cc.StaticCallee()] {
+			if _, isDefer := in.(*ssa.Defer); isDefer {
+				return
+			}
+			what = "call of " + sk(cc.StaticCallee())
+		}
+		if what == "" {
+			return
+		}
+		k++
+		key := siteKey(f, "memory-touched", k)
+		idx := 0
+		for i, x := range in.Block().Instrs {
+			if x == in {
+				idx = i + 1
+			}
+		}
+		s := &an.Search{P: p, Fn: f, GoalReturn: func(r *ssa.Return, pred *ssa.BasicBlock) bool {
+			return p.ClassifyReturn(r, pred) == an.RetError
+		}}
+		if w := s.Run(in.Block(), idx, nil); w != nil {
+			c.Fail(key, "the cached keystore is changed ("+what+") while a later step of the deletion can still fail: the transaction is rolled back, the cache is not, and the cache repair reloads only wallets that are absent from it", posOf(c, in), w...)
+		} else {
+			c.OK(key, what+": no error return reachable afterwards", posOf(c, in))
+		}
+	})
+	if k == 0 {
+		c.Fail(sk(f)+":memory-touched", "DeleteKeystore no longer evicts the keystore from memory (anchor lost)", p.Pos(f.Pos()))
 	}
 }
